@@ -152,7 +152,7 @@ class StateTriggerDecorator(TriggerDecorator, ExpressionDecorator, AutoKwargsDec
             return "None"
         return f"{(now - dt):g} ago"
 
-    async def _check_new_state(self, trig_ok: bool, startup: bool = False) -> None:
+    async def _check_new_state(self, trig_ok: bool, startup: bool = False, any_change: bool = False) -> None:
         now = asyncio.get_running_loop().time()
         if _LOGGER.isEnabledFor(logging.DEBUG):
             msg = f"check_new_state: {self}"
@@ -168,8 +168,10 @@ class StateTriggerDecorator(TriggerDecorator, ExpressionDecorator, AutoKwargsDec
         state_hold_false_passed = False
         state_hold_true_passed = False
         if trig_ok:
-            if self.state_hold_false is None or not self.has_expression() or startup:
-                # (the check made at start-up for state_check_now does not wait for a False first)
+            if self.state_hold_false is None or not self.has_expression() or startup or any_change:
+                # (the check made at start-up for state_check_now does not wait for a False first; the
+                # match of an any-change name is no evaluation of the expression: state_hold_false
+                # neither gates it nor is its false period used up)
                 state_hold_false_passed = True
             else:
                 if self.false_entered_at:
@@ -280,7 +282,8 @@ class StateTriggerDecorator(TriggerDecorator, ExpressionDecorator, AutoKwargsDec
                     raise RuntimeError(f"Invalid notify_type {notify_type}, {self}")
                 new_vars, func_args = notify_info
 
-                if ident_any_values_changed(func_args, self.state_trig_ident_any):
+                any_change = ident_any_values_changed(func_args, self.state_trig_ident_any)
+                if any_change:
                     self.last_new_vars, self.last_func_args = new_vars, func_args
                     trig_ok = True
                 elif self.has_expression() and ident_values_changed(func_args, self.state_trig_ident):
@@ -290,7 +293,7 @@ class StateTriggerDecorator(TriggerDecorator, ExpressionDecorator, AutoKwargsDec
                     # no any-change name matched and no watched name changed (eg, an attribute-only
                     # update): nothing is evaluated, so the hold timers and recorded arguments stay
                     continue
-                await self._check_new_state(trig_ok)
+                await self._check_new_state(trig_ok, any_change=any_change)
             except TimeoutError:
                 await self._check_state_hold()
 
